@@ -73,7 +73,7 @@ def extraCommands : List (String × (List String → String)) := [
   ("c06-descr", C06.descrCmd), ("c06-set", C06.setCmd), ("c06-tuple", C06.tupleCmd), ("c06-uint", C06.uintCmd),
   ("c03-opt", C03Opt.opt), ("c03-iterate", C03Opt.iter), ("c03-run", C03Opt.run),
   ("c03-pairs", C03Opt.pairs), ("c03-unopt", C03Opt.unopt),
-  ("fragmentr-sexp", C02Gen.fragmentrSexp), ("composed-sexp", C02Gen.composedSexp)
+  ("fragmentr-sexp", C02Gen.fragmentrSexp), ("composed-sexp", C02Gen.composedSexp), ("c01-original", C02Gen.originalMainSexp)
 ]
 
 def dispatch (cmd : String) (args : List String) : Option String :=
